@@ -9,7 +9,7 @@ import DepsDev.Proofs.C09bPrint
     `contains_release_mode`, `matchVersion_release_mode`: what a well-formed span / set matches.
     The full union law `UnionLawRel` is REFUTED (`unionLawRel_refuted`: finding F-C09-pre-merge, a
     merged span forgets the inner prerelease bound that admitted the candidate; `union_rel_gain`: the
-    merged span may also admit a candidate neither operand admits). `union_law_pre_partial` proves it
+    merged span may also accept a candidate neither operand admits). `union_law_pre_partial` proves it
     under `NoPreMerge` (no two tagged spans that overlap or touch have a bound touching the
     candidate); the witnesses violate exactly this hypothesis. The intersection law is not claimed by
     the property for prerelease candidates and is false (`intersectLawRel_refuted`);
@@ -217,27 +217,28 @@ def NoPreMerge (s : System) (A B : VSet) (v : Version) : Prop := NoPreMergeL s v
 instance (s : System) (A B : VSet) (v : Version) : Decidable (NoPreMerge s A B v) :=
   inferInstanceAs (Decidable (NoPreMergeL _ _ _))
 
-/-- Every bound flagged as a prerelease carries a prerelease tag (true of everything the parser
-builds; the converse fails for the least version `0.0.0-0` of `<`/`<=`, flagged as a release). -/
-def FlagsOK (A B : VSet) : Prop := ∀ x ∈ bounds (A.span ++ B.span), FlagOK x
+/-- No bound of the operands is flagged as a prerelease, carries no tag and has the number list of the
+candidate. (`clearPre` drops the tag and keeps the flag: the upper bound `1.∞.∞` of `^1.2.3-a` is flagged
+but untagged; a parsed candidate has no `∞` number, so the hypothesis holds for it.) -/
+def FlagsOK (A B : VSet) (v : Version) : Prop := ∀ x ∈ bounds (A.span ++ B.span), FlagOK v x
 
-instance (A B : VSet) : Decidable (FlagsOK A B) := by unfold FlagsOK; infer_instance
+instance (A B : VSet) (v : Version) : Decidable (FlagsOK A B v) := by unfold FlagsOK; infer_instance
 
 /-- **Union law, release mode, prerelease candidates** — `_partial`: under `NoPreMerge`, `Union` never
 fails and `MatchVersion` of the result is the disjunction of `MatchVersion` of the operands. (No seam
 hypothesis: a release-bounded merged span admits no prerelease in release mode.) -/
 theorem union_law_pre_partial (hs : SysR s) {A B : VSet} (hA : SetOK s A) (hB : SetOK s B) {v : Version}
-    (hv : VG s v) (hp : v.isPrerelease = true) (hvt : v.pre ≠ []) (hflag : FlagsOK A B)
+    (hv : VG s v) (hp : v.isPrerelease = true) (hvt : v.pre ≠ []) (hflag : FlagsOK A B v)
     (hpm : NoPreMerge s A B v) :
     ∃ U a b, A.union B = .ok U ∧ A.matchVersion v false = .ok a ∧ B.matchVersion v false = .ok b ∧
       U.matchVersion v false = .ok (a || b) := by
-  have hok : ∀ x ∈ A.span ++ B.span, SpanOK s x ∧ AllB FlagOK x := by
+  have hok : ∀ x ∈ A.span ++ B.span, SpanOK s x ∧ AllB (FlagOK v) x := by
     intro x hx
     refine ⟨?_, allB_of_bounds hflag hx⟩
     rcases List.mem_append.mp hx with h | h
     · exact hA.spans x h
     · exact hB.spans x h
-  obtain ⟨r, e, h1, h2, -, -⟩ := canonSpans_spec FlagOK hs.ne.1 (A.span ++ B.span) hok
+  obtain ⟨r, e, h1, h2, -, -⟩ := canonSpans_spec (FlagOK v) hs.ne.1 (A.span ++ B.span) hok
   have hrel := canonSpans_rel hs.ne.1 hp hvt (A.span ++ B.span) hok hpm e
   have hU : SetOK s { A with span := r } :=
     ⟨h2 (fun h => hA.nonempty (List.append_eq_nil_iff.mp h).1), fun x hx => (h1 x hx).1⟩
@@ -250,7 +251,7 @@ theorem union_law_pre_partial (hs : SysR s) {A B : VSet} (hA : SetOK s A) (hB : 
 /-- The same on constraint texts. -/
 theorem union_law_pre_parsed (hs : SysR s) {c1 c2 t : Bytes} {C1 C2 : Constraint} {v : Version}
     (h1 : parseConstraint s c1 = .ok C1) (h2 : parseConstraint s c2 = .ok C2) (hv : parse s t = .ok v)
-    (hp : v.isPrerelease = true) (hvt : v.pre ≠ []) (hflag : FlagsOK C1.set C2.set)
+    (hp : v.isPrerelease = true) (hvt : v.pre ≠ []) (hflag : FlagsOK C1.set C2.set v)
     (hpm : NoPreMerge s C1.set C2.set v) :
     ∃ U a b, C1.set.union C2.set = .ok U ∧ C1.set.matchVersion v false = .ok a ∧
       C2.set.matchVersion v false = .ok b ∧ U.matchVersion v false = .ok (a || b) :=
@@ -564,7 +565,7 @@ example : SysR .npm ∧
 /-- `union_law_pre_partial`: the operands of the finding (`<2.1.3-0`, `~2.1.3-0`: two tagged spans that
 touch, merged by `canon`), with the prerelease candidate `2.1.5-0`, which touches none of their bounds. -/
 example : SysR .npm ∧ SetOK .npm wE ∧ SetOK .npm wF ∧ VG .npm wQ' ∧ wQ'.isPrerelease = true ∧ wQ'.pre ≠ [] ∧
-    FlagsOK wE wF ∧ NoPreMerge .npm wE wF wQ' := by
+    FlagsOK wE wF wQ' ∧ NoPreMerge .npm wE wF wQ' := by
   have g : ∀ v : Version, v.sys = .npm → v.ext = .none → VG .npm v := fun _ h1 h2 => ⟨h1, h2⟩
   refine ⟨Or.inl (Or.inr (Or.inl rfl)), wE_ok, wF_ok, ⟨rfl, rfl⟩, rfl, by decide, by decide, ?_⟩
   show List.Pairwise (RS .npm wQ') [spE, spF]
@@ -578,7 +579,7 @@ example : SysR .npm ∧ SetOK .npm wE ∧ SetOK .npm wF ∧ VG .npm wQ' ∧ wQ'.
 /-- `union_law_pre_partial` with a candidate that IS matched: the prerelease pin `1.0.0-01` (a unit span)
 next to the release range `>=1.0.0 <=2.1.0`; candidate `1.0.0-1` (equal to the pin in the order). No two
 tagged spans, so `NoPreMerge` holds although the candidate touches a bound. -/
-example : SetOK .npm wK ∧ SetOK .npm wC ∧ VG .npm (preV [1, 0, 0] [49]) ∧ FlagsOK wK wC ∧
+example : SetOK .npm wK ∧ SetOK .npm wC ∧ VG .npm (preV [1, 0, 0] [49]) ∧ FlagsOK wK wC (preV [1, 0, 0] [49]) ∧
     NoPreMerge .npm wK wC (preV [1, 0, 0] [49]) ∧ wK.matchVersion (preV [1, 0, 0] [49]) false = .ok true := by
   refine ⟨wK_ok, wC_ok, ⟨rfl, rfl⟩, by decide, ?_, by decide +kernel⟩
   show List.Pairwise (RS .npm (preV [1, 0, 0] [49])) (spK :: wC.span)
